@@ -20,7 +20,7 @@ TECHNIQUE = 'static: coverage shape of Stage::execute (rayon for_each over whole
 RULE_TEXT = "one obligation per routing site, pool origin, pool-configuration call and lock site; zero-count classes (thread caps) have positive examples in the probe crate (thorough)"
 
 
-def run(ctx, report):
+def _run_rules(ctx, report):
     for config in ctx.configs:
         if not ctx.parallel(config):
             report.note("config %s: no thread pool without the `parallel` feature; dispatch is sequential by definition" % config)
@@ -34,3 +34,10 @@ def run(ctx, report):
         report.guard("C11.INVENTORY", S.pool_inventory, ctx, report, "C11.INVENTORY", facts, config)
     P.check(ctx, report, "C11.POOL", ["num_threads"])
     P.check(ctx, report, "C11.LOCK", ["write_lock"])
+
+
+def run(ctx, report):
+    _run_rules(ctx, report)
+    from .. import shared as _S
+    for config in ctx.configs:
+        report.guard("C11.ENCAPSULATED", _S.encapsulated, ctx, report, "C11.ENCAPSULATED", ctx.facts(config), config, "C11")
